@@ -68,7 +68,7 @@ def main():
         os.makedirs(sd, exist_ok=True)
         for a, b in (("patch%s.diff" % k, "patch.diff"), ("demo%s.py" % k, "demo.py"), ("notes%s.md" % k, "notes.md")):
             src = os.path.join(wt, srcdir, a)
-            if os.path.exists(src):
+            if os.path.exists(src) and not ("--keep" in sys.argv and os.path.exists(os.path.join(sd, b))):
                 shutil.copy(src, os.path.join(sd, b))
         base = tempfile.mkdtemp(prefix="seedimp-")
         meta = dict(property=prop, source="independent sub-agent given only the property text and a scratch worktree", files=[])
